@@ -281,3 +281,81 @@ func constsByName(p *core.Prog, names []string) []*types.Const {
 	}
 	return out
 }
+
+// SentinelRuns (R-TERM/T-eof): the weak primitives do not fail at the end of
+// the input, they keep yielding the sentinel — and Lexer.next keeps advancing
+// the column it reports. One call on exhausted input lands on the
+// end-of-input position, which is still "inside the file"; every further call
+// moves positions beyond it. So on no path through a function may more than
+// two direct calls of a weak primitive follow each other without a branch
+// that excludes the sentinel (the first may rest on the caller's peek, the
+// second lands at most on the end position).
+func SentinelRuns(r *core.Run, sc *Scope, tc TermConfig, sentinels []*types.Const) {
+	r.Rule("R-TERM/T-eof", "in every function that calls Lexer.next / Walker.popToken directly, no control-flow path makes more than two such calls in a row without passing a test that excludes the end-of-input sentinel: unchecked runs read past the end and push reported positions outside the file")
+	n := 0
+	for _, f := range sc.Funcs {
+		info := f.Pkg.TypesInfo
+		direct := func(nd ast.Node) int {
+			k := 0
+			ast.Inspect(nd, func(x ast.Node) bool {
+				if _, isLit := x.(*ast.FuncLit); isLit {
+					return false
+				}
+				if c, ok := x.(*ast.CallExpr); ok && tc.Weak[core.CalleeName(info, c)] {
+					k++
+				}
+				return true
+			})
+			return k
+		}
+		if direct(f.Body) < 1 {
+			continue
+		}
+		n++
+		em := &eofModel{info: info, decl: core.EnclosingFunc(f.Pkg, f.Body.Pos()), sentinels: sentinels, fields: tc.SymbolFields, calls: tc.SymbolCalls, prog: r.P}
+		g := loopCFG(f)
+		type state struct {
+			b *cfg.Block
+			c int
+		}
+		seen := map[state]bool{}
+		worst := 0
+		var walk func(b *cfg.Block, c int)
+		walk = func(b *cfg.Block, c int) {
+			if seen[state{b, c}] || worst >= 3 {
+				return
+			}
+			seen[state{b, c}] = true
+			for _, nd := range b.Nodes {
+				c += direct(nd)
+				if c > worst {
+					worst = c
+				}
+				if c > 3 {
+					c = 3
+				}
+			}
+			var cond ast.Expr
+			if len(b.Succs) == 2 && len(b.Nodes) > 0 {
+				cond, _ = b.Nodes[len(b.Nodes)-1].(ast.Expr)
+			}
+			for i, s := range b.Succs {
+				nc := c
+				if cond != nil && em.excludes(cond, i == 0, 0) {
+					nc = 0
+				}
+				walk(s, nc)
+			}
+		}
+		if len(g.Blocks) > 0 {
+			walk(g.Blocks[0], 0)
+		}
+		o := r.Add("R-TERM/T-eof", siteKey(f, "runs of sentinel-yielding calls"), f.Node.Pos(), "consecutive reads without an end-of-input test")
+		if worst <= 2 {
+			o.Auto("at most %d consecutive call(s) between end-of-input tests", worst)
+		} else if !r.Table(tc.Table, o) {
+			o.Fail("a path makes %d or more calls of a primitive that does not fail at the end of the input without testing for the sentinel in between: on truncated input the reads run past the end and the positions reported afterwards lie outside the file", worst)
+		}
+	}
+	r.Analysed["functions_with_sentinel_reads"] = n
+}
